@@ -369,6 +369,12 @@ func (p *Parser) resolveDeltas(ofsDeltas, refDeltas []*ObjectHeader) error {
 		if err := p.processDelta(d); err != nil {
 			return fmt.Errorf("processing ref-delta at offset %v: %w", d.Offset, err)
 		}
+		// The external-base delta is now a resolved in-pack object:
+		// deltas chained on it (OFS by offset, REF by hash) resolve
+		// from here, as index-pack --fix-thin does.
+		if err := visit(d); err != nil {
+			return err
+		}
 	}
 
 	for _, d := range ofsDeltas {
